@@ -1033,7 +1033,9 @@ class CompartmentalModel:
 
         parameters = parameters or {}
 
-        if rebuild:
+        # The cached runner is only good for the solver (and solver options) it was built with
+        runner_args = (solver, kwargs)
+        if rebuild or getattr(self, "_runner_args", None) != runner_args:
             self._runner = None
 
         if self._runner is None:
@@ -1044,6 +1046,7 @@ class CompartmentalModel:
             self._set_backend("jax", backend_args)
             self._backend.prepare_structural()
             self._runner = self.get_runner(parameters, solver=solver, **kwargs)
+            self._runner_args = runner_args
 
         self._runner.run(parameters=parameters)
 
